@@ -166,6 +166,7 @@ fn check_send(rst: [u8; 2], rq: &[usize]) {
         }
     }
     assert!(queue_ok(&w), "[C01] queue consistent after send");
+    assert!(w.rf[0].is_terminated() == (rst[0] == 3) && w.rf[1].is_terminated() == (rst[1] == 3), "[C17] send() terminates no future: a woken receiver is not terminated until its poll returned Ready");
 }
 
 fn check_close(rst: [u8; 2], rq: &[usize]) {
@@ -191,6 +192,9 @@ fn fresh_future_is_not_terminated() {
     let ch = Ch::new();
     let r = ch.receive();
     assert!(!r.is_terminated(), "[C17] is_terminated() is false from creation");
+    assert!(r.wait_node.state == RecvPollState::Unregistered && r.wait_node.task.is_none(), "[C12] a new receive future has not started waiting");
+    let st = ch.inner.lock();
+    assert!(!st.is_fulfilled && st.value.is_none() && st.waiters.is_empty(), "[C12] [C11] a new channel is open and holds no value");
 }
 
 #[kani::proof]
